@@ -18,22 +18,31 @@ CHECKS = {
                       'N4 (for-loop desugaring) are applied to the extracted text and printed in evidence.',
     },
     'C10': {
-        'engine': 'V',
-        'technique': 'Verus contracts on the lexer digit accumulators against positional-notation spec functions',
-        'level_text': 'Unbounded deductive proof (Verus) on the verbatim text of digit/digits, digit_hex/digits_hex, digit_octal/digits_octal: the maximal digit run is consumed, '
-                      'the result is exactly the positional value of that run when it fits in 64 bits, and the literal is rejected otherwise; no overflow is reachable.',
-        'level_note': 'Partial: integer accumulation only so far. Floating literals (nearest double) are not decidable by this family (Verus treats f64 as uninterpreted, '
-                      'CBMC cannot decide correct rounding); token tiling and the location table are being added.',
+        'engine': 'V+K',
+        'technique': 'Verus contracts on the digit accumulators (positional value), the token stream (tiling), the location table and the float literal value; Kani harnesses for the literal glue Verus cannot ingest',
+        'level_text': 'Unbounded deductive proof (Verus) on the verbatim text of digit/digits, digit_hex/digits_hex, digit_octal/digits_octal (the maximal digit run is consumed, the result is exactly its positional value '
+                      'when that fits in 64 bits and the literal is rejected otherwise), of TokenStream::{next,read_to_end} (token spans are contiguous, ordered and cover [start, len]), of SourceManager::{add_file, '
+                      'get_source_location_from_file_offset} (each file owns [base, base+len] of the location space, the ranges partition it), and of digit_sequence / calculate_float64_from_parts (the value of a floating literal '
+                      'is what the standard library f64 parser returns for the spelling 0<whole digits>.<fraction digits>e<exponent>, i.e. the nearest double of the written decimal, rounded once). '
+                      'Kani: the integer suffix table (complete over every 3-byte lookahead); bounded harnesses for the prefix dispatch of literal_int, for literal_float on five token shapes (which digit strings and exponent reach '
+                      'calculate_float64_from_parts; f/h suffix narrows that value once to f32), for float_exponent on all inputs of at most 22 bytes, and for the location table inverse.',
+        'level_note': 'Assumed: `impl FromStr for f64` accepts digits.digits e integer and returns the correctly rounded double (documented by std; IEEE arithmetic is not modelled by Verus), str::parse is a function of the text, '
+                      'Display for i64 (vstd leaves its text uninterpreted), Vec::from(array) holds the array elements, String push / push_str (vstd). '
+                      'literal_float and float_exponent use slice patterns Verus rejects: their glue is checked by bounded Kani harnesses only (never counted as proved). '
+                      'NOT decided: that the value appears unchanged in the output (formatter), hex/octal prefix dispatch beyond the bounded harness, unlex (iterator adapters). '
+                      'Two pointer-range debug_asserts in TokenStream::next are outside the verifier memory model (assumed).',
     },
     'C11': {
-        'engine': 'V',
-        'technique': 'Verus contracts on ConditionChain (abstraction to C (now,taken) levels) and on the condition evaluator operators / left fold',
+        'engine': 'V+K',
+        'technique': 'Verus contracts on ConditionChain (abstraction to C (now,taken) levels) and on the condition evaluator (operators, left fold, leaves, unary !); Kani shape harnesses for the precedence-climbing glue',
         'level_text': 'Unbounded deductive proof (Verus) that ConditionChain::{new,push,switch,pop}, extracted verbatim from preprocess.rs, implement the C #if/#elif/#else/#endif group-selection rule over the '
-                      '(now,taken) abstraction with unmatched #else/#endif rejected, that BinOp::apply is the C semantics of the eight binary operators over u64, and that combine_rights groups the operators of one '
-                      'precedence level to the left.  Thorough tier adds a bounded Kani harness driving ConditionChain through its API (sequences of 5 operations) which also discharges the assumed is_active contract.',
-        'level_note': 'Partial: automaton + operator semantics + left fold. Assumed in the quick tier: contract of ConditionChain::is_active (Iterator::all with an un-annotated closure has no usable spec). '
+                      '(now,taken) abstraction with unmatched #else/#endif rejected, that BinOp::apply is the C semantics of the eight binary operators over u64, that combine_rights groups the operators of one '
+                      'precedence level to the left, and that parse_leaf / parse_p2 give literals, true/false, unknown identifiers (0), parenthesised conditions and ! their C value. '
+                      'Kani (bounded by shape, operands fully symbolic u64): for 18 concrete token shapes the real parse_p12..parse_p6 chain yields the C value - each binary operator alone, `<` vs `<=` adjacency, six precedence pairs, three associativity cases. '
+                      'Thorough tier adds a bounded Kani harness driving ConditionChain through its API (sequences of 5 operations) which also discharges the assumed is_active contract.',
+        'level_note': 'Assumed in the quick tier: contract of ConditionChain::is_active (Iterator::all with an un-annotated closure has no usable spec); parse_p12 is uninterpreted inside the Verus unit (recursion through parentheses). '
                       'NOT decided: directive gating in preprocess_command (define/undef/include/pragma in unselected branches), the end-of-input check in preprocess_initial_file, routing of every line through the automaton, '
-                      'the precedence-climbing glue parse_p12..parse_p2 (slice patterns; closures) and macro substitution / defined() in conditions. Assumed: u64::from(bool).',
+                      'the precedence-climbing glue beyond the 18 shapes (slice patterns; closures) and macro substitution / defined() in conditions. Assumed: u64::from(bool).',
     },
     'C13': {
         'engine': 'K+V',
